@@ -122,32 +122,61 @@ pub fn complete_path(word: &str, for_dir: bool) -> Vec<Completion> {
             // TODO: Deal with non-UTF8 paths in some way
             if let Ok(_path) = entry_name.into_string() {
                 if _path.starts_with(&file_name) {
-                    let (name, display) = if !dir_orig.is_empty() {
-                        (
-                            format!("{}{}{}", dir_orig, MAIN_SEPARATOR, _path),
-                            Some(_path),
-                        )
+                    // `~/` or `$VAR/` typed in front of the name only keep
+                    // their meaning if the entry can be written next to
+                    // them without making the whole word literal (an
+                    // escaped `$`, `*`, ... does) or changing the kind of
+                    // quotes; otherwise complete with the directory itself.
+                    let fits_single = |x: &str| !x.contains('\'');
+                    // (`!!` is replaced by the previous command inside
+                    // double quotes)
+                    let fits_double = |x: &str| !x.contains(|c| c == '"' || c == '$' || c == '\\' || c == '`' || c == '!');
+                    let expands = is_env || needs_expand_home(&path);
+                    let keeps_meaning = if path_sep.is_empty() {
+                        !_path.contains(|c| "><*~&{`$|".contains(c))
+                    } else if path_sep == "\"" {
+                        fits_double(&_path)
                     } else {
-                        (_path, None)
+                        true
                     };
-                    let mut name = str::replace(name.as_str(), "//", "/");
-                    if path_sep.is_empty() && !is_env {
-                        name = tools::escape_path(&name);
+                    let use_lookup_dir = expands && !keeps_meaning && !dir_orig.is_empty();
+                    let dir_shown = if use_lookup_dir { _dir_lookup.clone() } else { dir_orig.clone() };
+                    // what has to fit into the quotes: the entry, and the
+                    // directory too if it is newly written here.
+                    let to_quote = if use_lookup_dir || !expands {
+                        format!("{}{}", dir_shown, _path)
+                    } else {
+                        _path.clone()
+                    };
+
+                    let display = if dir_orig.is_empty() { None } else { Some(_path.clone()) };
+                    let join = |dir: &str, entry: &str| -> String {
+                        let x = if dir.is_empty() {
+                            entry.to_string()
+                        } else {
+                            format!("{}{}{}", dir, MAIN_SEPARATOR, entry)
+                        };
+                        str::replace(x.as_str(), "//", "/")
+                    };
+                    let mut name = join(&dir_shown, &_path);
+                    if path_sep.is_empty() {
+                        if is_env && !use_lookup_dir {
+                            // keep `$VAR/` as typed, escape the entry only
+                            name = join(&dir_shown, &tools::escape_path(&_path));
+                        } else {
+                            name = tools::escape_path(&name);
+                        }
                     }
                     let mut quoted = false;
                     if !path_sep.is_empty() {
                         // keep the quote the user opened only if the name
                         // reads back unchanged inside it; otherwise use the
                         // other quote, or backslash escapes.
-                        let fits_single = !name.contains('\'');
-                        // (`!!` is replaced by the previous command inside
-                        // double quotes)
-                        let fits_double = !name.contains(|c| c == '"' || c == '$' || c == '\\' || c == '`' || c == '!');
-                        let sep = if path_sep == "'" && fits_single || path_sep == "\"" && fits_double {
+                        let sep = if path_sep == "'" && fits_single(&to_quote) || path_sep == "\"" && fits_double(&to_quote) {
                             path_sep.as_str()
-                        } else if fits_single {
+                        } else if fits_single(&to_quote) && !(expands && !use_lookup_dir) {
                             "'"
-                        } else if fits_double {
+                        } else if fits_double(&to_quote) {
                             "\""
                         } else {
                             ""
